@@ -2164,7 +2164,37 @@ def g_c08(r, tier, env, Ls):
             p["atol"] = r.pick([[1e-10, 1e-2], [1e-2, 1e-10]]); p["rtol"] = 1e-8
             p["k"] = [r.pick([1e-9, 1.0, 1.0, 3.0]) for _ in range(ncell)]
         cs.append(Case(problem_line(p, clamp=1, trace=0), dict(p), "solve", oracle=oracle_ros_accuracy, tags=["ros_accuracy", pname, "L=%d" % L]))
+    # "... tightening as tolerances tighten": the same A -> B problem at a loose and at a 10^4 times tighter tolerance
+    for gid in range(20 if tier == "quick" else 400):
+        L = r.pick(Ls); ncell = r.rng(1, 2 * max(L, 1) + 1); pname = r.pick(ROS_NAMES)
+        base = dict(integ=0, L=L, csc=r.below(2), kind=r.below(4), ncell=ncell, ns=2, perm=r.shuffle(range(2)), rx=[([0], [(1, 1.0)])],
+                    k=[r.logu(1e-1, 1e1) for _ in range(ncell)], y=[v for _ in range(ncell) for v in (r.logu(1e-1, 1e1), 0.0)],
+                    dt=r.logu(1e-1, 1e1), ptoks=G.ros_param_tokens(env["ros"][pname], {}), pname=pname)
+        for (rt, at) in ((1e-3, 1e-5), (1e-7, 1e-9)):
+            p = dict(base, rtol=rt, atol=[at, at])
+            cs.append(Case(problem_line(p, clamp=1, trace=0), dict(p), "solve", oracle=oracle_ros_accuracy, group=(("c08t", gid), grp_tightening),
+                           tags=["ros_tightening", pname]))
     return cs
+
+def max_rel_error_ab(c):
+    s = parse_solve(c.impl_out or "")
+    if s is None or s["status"] != "Converged": return None
+    m = c.meta; worst = 0.0
+    for cell in range(m["ncell"]):
+        k = m["k"][cell]; A0 = m["y"][2 * cell]
+        A = A0 * math.exp(-k * m["dt"])
+        worst = max(worst, abs(s["y"][2 * cell] - A) / max(abs(A0), 1e-300))
+    return worst
+
+def grp_tightening(a, b):
+    """a = loose tolerance, b = tight tolerance on the same problem: the error must not grow when the tolerance tightens"""
+    ea, eb = max_rel_error_ab(a), max_rel_error_ab(b)
+    if ea is None or eb is None: return None
+    if eb > ea + 1e-12:
+        return (f"tightening the tolerances from rtol={a.meta['rtol']} to {b.meta['rtol']} made the result worse: relative error {ea:.3e} -> {eb:.3e} "
+                f"({a.meta['pname']}, L={a.meta['L']}, cells={a.meta['ncell']})")
+    if eb < 0.1 * ea: a.tags.append("error_shrank_10x")
+    return None
 
 def oracle_ros_accuracy(c, out):
     """A -> B (yield 1): A(t) = A0 exp(-k t), B(t) = B0 + A0 - A(t).  A Converged result must be within a modest multiple
